@@ -142,7 +142,9 @@ def random_shape(g, rng, depth):
             elif r < 7 and level < depth:
                 k = rng.below(4)
                 if k == 0:
-                    b["stmts"].append(("block", block(level + 1, inside_loop, labels)))
+                    nb = block(level + 1, inside_loop, labels)
+                    nb["vblock"] = rng.chance(1, 3)
+                    b["stmts"].append(("block", nb))
                 elif k == 1:
                     lb = f"l{g.n_blk + 1}"
                     nb = block(level + 1, inside_loop, labels + [(lb, False)])
@@ -192,10 +194,16 @@ def emit_block_body(b, out, ind, counters):
             out.append(f"{pad}defer vr_ev({D_BASE + s[1]});")
         elif s[0] == "block":
             nb = s[1]
-            head = f"`{nb['label']}: {{" if nb["label"] else "{"
-            out.append(pad + head)
-            emit_block_body(nb, out, ind + 1, counters)
-            out.append(pad + "}")
+            if nb.get("vblock") and not nb["label"]:
+                # the same block as the value of a local of type ?void: falling off its end builds the value "from nothing"
+                out.append(f"{pad}vb{nb['id']} : ?void = {{")
+                emit_block_body(nb, out, ind + 1, counters)
+                out.append(pad + "};")
+            else:
+                head = f"`{nb['label']}: {{" if nb["label"] else "{"
+                out.append(pad + head)
+                emit_block_body(nb, out, ind + 1, counters)
+                out.append(pad + "}")
         elif s[0] == "loop":
             lp = s[1]
             c = f"c{lp['id']}"
@@ -208,20 +216,29 @@ def emit_block_body(b, out, ind, counters):
             out.append(pad + "}")
         elif s[0] == "jump":
             kind, label, sel = s[1], s[2], s[3]
-            j = {"break": "break;", "continue": "continue;", "return": "return 7;", "break_l": f"break `{label};", "continue_l": f"continue `{label};"}[kind]
+            fl = counters[1] if len(counters) > 1 else "opt_i64"
+            ret = {"opt_i64": "return 7;", "opt_void": "return;" if sel % 2 else "return nil;", "err_void": "return;" if sel % 2 else "return \"e\";"}[fl]
+            j = {"break": "break;", "continue": "continue;", "return": ret, "break_l": f"break `{label};", "continue_l": f"continue `{label};"}[kind]
             out.append(f"{pad}if sel == {sel} {{ {j} }}")
         elif s[0] == "try":
             counters[0] += 1
             o = f"o{counters[0]}"
-            out.append(f"{pad}{o} : ?i64 = 1;")
-            out.append(f"{pad}if sel == {s[1]} {{ {o} = nil; }}")
+            if len(counters) > 1 and counters[1] == "err_void":
+                out.append(f"{pad}{o} : str!i64 = 1;")
+                out.append(f"{pad}if sel == {s[1]} {{ {o} = \"x\"; }}")
+            else:
+                out.append(f"{pad}{o} : ?i64 = 1;")
+                out.append(f"{pad}if sel == {s[1]} {{ {o} = nil; }}")
             out.append(f"{pad}t{counters[0]} := {o}.try;")
 
 
 def emit_function(name, body):
-    out = [f"{name} :: (sel: i64) -> ?i64 {{"]
-    emit_block_body(body, out, 1, [0])
-    out.append("    0")
+    """flavour of the function result: ?i64 with a tail value, or ?void / str!void whose body falls off its end"""
+    fl = body.get("flavour", "opt_i64")
+    out = [f"{name} :: (sel: i64) -> " + {"opt_i64": "?i64", "opt_void": "?void", "err_void": "str!void"}[fl] + " {"]
+    emit_block_body(body, out, 1, [0, fl])
+    if fl == "opt_i64":
+        out.append("    0")
     out.append("}")
     return "\n".join(out)
 
@@ -422,11 +439,12 @@ def make_cases(tier, seed):
     for i, (kinds, ndef, jump, jl, pos) in enumerate(systematic):
         body = skeleton_shape(g, kinds, list(ndef), jump, jl, pos)
         sig = ("sys", tuple(kinds), ndef, jump[0] if jump else "fall", jl, jump[1] if jump else None, pos)
-        cases.append((f"s{i}", body, 1, sig))
+        body["flavour"] = ["opt_i64", "opt_void", "err_void"][i % 3]
+        cases.append((f"s{i}", body, 1, sig + (body["flavour"],)))
     n_rand = 200 if tier == "quick" else 10000
     for i in range(n_rand):
         body, nsel = random_shape(g, rng, rng.range(1, max_depth))
-        outer = {"id": g.blk(), "label": None, "stmts": [("defer", g.dfr()), ("block", body), ("ev", g.ev())]}
+        outer = {"id": g.blk(), "label": None, "stmts": [("defer", g.dfr()), ("block", body), ("ev", g.ev())], "flavour": rng.pick(["opt_i64", "opt_i64", "opt_void", "err_void"])}
         cases.append((f"r{i}", outer, nsel, ("rand", i)))
     return cases
 
